@@ -192,8 +192,6 @@ Qed.
 End PCA.
 
 (* ---- scalings of get_pca_vector ---- *)
-Lemma cabs_RO (z : C) : cabs RO z = Cmod z.
-Proof. unfold cabs. rewrite cabs2_RO. cbn [osqrt RO]. apply sqrt_square. apply Cmod_ge_0. Qed.
 Lemma csqrt_RO_real t : (0 < t)%R -> csqrt RO (RtoC t) = RtoC (sqrt t).
 Proof.
   intros Ht. unfold csqrt. rewrite cabs2_RO, cabs_RO, Cmod_R, half_RO. rewrite Rabs_pos_eq by lra.
